@@ -51,6 +51,12 @@ ASSUMPTIONS = [
     "span must start at the start and end at the end of source ranges of matched terms and be covered by such ranges. "
     "UppercaseFormatter output is compared case-insensitively (upper() of both sides); GenshiFormatter is not "
     "exercised because genshi is not installed in the environment (recorded in evidence, not a verdict)",
+    "(f) 'source text of a matched term' = the character range of any token carrying that term's text in the analysis "
+    "the highlighter itself uses (index mode for Hit.highlights, query mode for highlight.highlight(), both with "
+    "removestops=False): an occurrence that the stop filter dropped at index time but whose text equals a matched "
+    "term (an n-gram equal to a stop word) may be marked",
+    "Hit.highlights(strict_phrase=True) is exercised for Phrase queries over the document's own consecutive tokens; "
+    "only 'what is marked is source text of a phrase word' is demanded, not which occurrences",
     "highlight queries are Or/Term queries over 1..3 of the document's own index-time tokens, searched with and "
     "without terms=True (the PinpointFragmenter path needs terms=True and chars=True)",
     "token texts longer than 32k bytes are not generated (the on-disk term length limit is another property's subject)",
